@@ -47,7 +47,7 @@ def split_errors(prop, errors):
 # ---------------------------------------------------------------- sized-family op groups
 BASE = ["New", "Clone", "CloneArc", "Drop"]
 CONV = ["IntoRaw", "FromRaw", "IntoPtr", "FromPtr", "IntoOff", "FromOff", "FromFirst", "FromSecond",
-        "Shareable", "Unsize", "IntoRawDyn", "FromRawDyn", "CastDyn"]
+        "Shareable", "Unsize", "IntoRawDyn", "FromRawDyn", "CastDyn", "UnsizeUnq", "ShareableDyn", "UnsizeBor"]
 CONV_CORE = ["IntoRaw", "FromRaw", "IntoOff", "FromOff", "FromFirst", "FromSecond", "Shareable"]
 BORROW = ["Borrow", "BorCopy", "Enter", "Exit"]
 UNIQ = ["IsUnique", "TryUnique", "GetMut", "UqWrite"]
